@@ -33,7 +33,16 @@ def _impl(a):
     def f():
         try:
             r = SwitcherGetSchedulesResponse(bytes.fromhex(reply) if reply != "-" else b"")
-            return "ok " + H.show_resp(r)[len("schedules "):]
+            shown = "ok " + H.show_resp(r)[len("schedules "):]
+            # the caller owns what it was given: it may change the day sets of the schedules it received (and it does, here) -
+            # nothing listed later may show a trace of that
+            from aioswitcher.schedule import Days
+            for sch in r.schedules:
+                try:
+                    sch.days.add(list(Days)[(int(sch.schedule_id) + 3) % 7])
+                except Exception:  # noqa  (a frozen or immutable set is fine too)
+                    pass
+            return shown
         except Exception as e:  # noqa
             return "raise " + C.exc_name(e)
     return Z.under(zone, now, f)
